@@ -206,7 +206,10 @@ const c12CPULimit = 40
 
 // c12PinToOneCPU: restrict this process to one of its allowed CPUs and re-execute it, so that the Go runtime of the new
 // image starts with NumCPU() == 1 (a single-cpu VM, a cpuset, taskset -c N).
-func c12PinToOneCPU() {
+func c12PinToOneCPU() { c12PinToCPUs(1) }
+
+// c12PinToCPUs: the same for the first n allowed CPUs.
+func c12PinToCPUs(n int) {
 	var mask [32]uint64
 	if _, _, e := syscall.RawSyscall(syscall.SYS_SCHED_GETAFFINITY, 0, uintptr(len(mask)*8), uintptr(unsafe.Pointer(&mask[0]))); e != 0 {
 		fmt.Println("PIN-FAILED getaffinity", e)
@@ -215,10 +218,11 @@ func c12PinToOneCPU() {
 	var one [32]uint64
 	done := false
 	for i := range mask {
-		for b := 0; b < 64 && !done; b++ {
+		for b := 0; b < 64 && n > 0; b++ {
 			if mask[i]&(1<<uint(b)) != 0 {
-				one[i] = 1 << uint(b)
+				one[i] |= 1 << uint(b)
 				done = true
+				n--
 			}
 		}
 	}
